@@ -284,6 +284,7 @@ type summary struct {
 	MapPermuted  uint64            `json:"map_permuted"`
 	Uncontrolled uint64            `json:"uncontrolled_map_sites"`
 	KnownMet     int               `json:"violations_met"`
+	OtherSeeds   []string          `json:"ended_by_other_samples"`
 	Recheck      int               `json:"determinism_rechecks"`
 	RecheckBad   int               `json:"determinism_mismatches"`
 }
@@ -324,6 +325,9 @@ func doWorker() int {
 		}
 		if res.OtherRule != "" {
 			s.Other[res.OtherRule]++
+			if len(s.OtherSeeds) < 4 {
+				s.OtherSeeds = append(s.OtherSeeds, fmt.Sprintf("%s run-seed=%d", res.OtherRule, rs))
+			}
 		}
 		if res.Quiet != "" {
 			s.Quiet[res.Quiet]++
@@ -534,6 +538,9 @@ func doLeader() int {
 			total.Faults[k] += v
 		}
 		total.Violations = append(total.Violations, s.Violations...)
+		if len(total.OtherSeeds) < 12 {
+			total.OtherSeeds = append(total.OtherSeeds, s.OtherSeeds...)
+		}
 		if len(total.Samples) < 3 {
 			total.Samples = append(total.Samples, s.Samples...)
 		}
@@ -620,6 +627,7 @@ func writeEvidence(path string, t *summary, nPlans, nStates int, wall float64, v
 		"faults_fired":               t.Faults,
 		"reach_probes":               t.Probes,
 		"ended_by_other_property":    t.Other,
+		"ended_by_other_samples":     t.OtherSeeds,
 		"ended_without_verdict":      t.Quiet,
 		"map_range_calls_controlled": t.MapCalls,
 		"map_range_calls_permuted":   t.MapPermuted,
